@@ -273,6 +273,24 @@ class Freq(ObjVal):
         return self.show()
 
 
+class Asm(ObjVal):
+    """an array allocated first (np.empty / np.zeros of a 3-tuple) and filled block of rows by block of rows: the stores in program order.
+    blocks: [(lower bound text, upper bound text, value, enclosing loops, statement)]"""
+
+    def __init__(self, node):
+        self.node = node
+        self.blocks = []
+
+    def show(self):
+        return f"array filled by {len(self.blocks)} stores"
+
+    def __repr__(self):
+        return f"Asm({len(self.blocks)})"
+
+    def key(self):
+        return ("Asm", id(self))
+
+
 class Interp(seqdom.Interp):
     """seqdom interpreter + block typing.  roles: {param: ('setups',)}; estimator: qualified name suffix of the spectral estimator
     (rows = channels of its first argument, columns = channels of its second)"""
@@ -293,6 +311,68 @@ class Interp(seqdom.Interp):
 
     def err(self, node, msg):
         self.type_errors.append((node, msg))
+
+    # -- an array filled by stores into row ranges
+    def assign(self, t, v, env, node):
+        if isinstance(t, ast.Subscript) and isinstance(t.value, ast.Name) and isinstance(env.get(t.value.id), Asm):
+            a = env[t.value.id]
+            el = astq.index_elts(t)
+            first = el[0] if el else None
+            rest_full = all(astq.is_full_slice(x) or (isinstance(x, ast.Constant) and x.value is Ellipsis) for x in el[1:])
+            loops_ = list(self.loops)
+            lvp = self.topoly(env.get(el[2].id)) if len(el) == 3 and isinstance(el[2], ast.Name) and isinstance(env.get(el[2].id), Val) else None
+            lvar = next((l_[1] for l_ in loops_ if lvp is not None and lvp == P.s(l_[1])), None)
+            if isinstance(first, ast.Slice) and first.step is None and len(el) == 3 and astq.is_full_slice(el[1]) and lvar is not None and isinstance(v, Mat) and v.lay[2] is None:
+                # X[a:b, :, ff] = <block of one line> inside the loop over the lines: the block of all lines, line by line
+                v = Mat(v.rows, v.cols, v.form, STD_LAY)
+                loops_ = [l_ for l_ in loops_ if l_[1] != lvar]
+                rest_full = True
+            if isinstance(first, ast.Slice) and first.step is None and rest_full:
+                a.blocks.append((astq.src(first.lower) if first.lower is not None else "0", astq.src(first.upper) if first.upper is not None else None, v, loops_, node))
+            else:
+                a.blocks.append((None, None, v, list(self.loops), node))
+            return
+        return super().assign(t, v, env, node)
+
+    def assembled(self, a, fnode):
+        """the typed matrix an Asm stands for: its blocks of rows one below the other - when every store goes to the row range that
+        starts where the one before ended (literal bounds, or a running counter `row` advanced by the height of each block)"""
+        if not a.blocks:
+            return Mat((), (), ("opq", "allocated array that is never filled"))
+        rows, forms, cols, lay = [], [], None, None
+        end = "0"
+        for lo, hi, v, loops, st in a.blocks:
+            if not isinstance(v, Mat):
+                return Mat((), (), ("opq", f"`{astq.src(st, 50)}` stores a value that was not typed"))
+            if lo is None:
+                return Mat((), (), ("opq", f"`{astq.src(st, 50)}` is not a store into a range of rows"))
+            ok_place = lo == end
+            if not ok_place and lo.isidentifier() and hi is not None and hi.replace(" ", "").startswith(lo + "+"):
+                # a running counter: bound to the end of the block before, advanced by the height just stored
+                step = hi.replace(" ", "")[len(lo) + 1:]
+                init = [x for x in ast.walk(fnode) if isinstance(x, ast.Assign) and len(x.targets) == 1 and isinstance(x.targets[0], ast.Name) and x.targets[0].id == lo
+                        and x.lineno < st.lineno]
+                adv = [x for x in ast.walk(fnode) if isinstance(x, ast.AugAssign) and isinstance(x.target, ast.Name) and x.target.id == lo and isinstance(x.op, ast.Add)
+                       and astq.src(x.value).replace(" ", "") == step and x.lineno > st.lineno]
+                ok_place = bool(init) and astq.src(init[-1].value).replace(" ", "") == end.replace(" ", "") and bool(adv)
+                if ok_place:
+                    hi = None           # the end is the counter itself from here on
+            if not ok_place:
+                return Mat((), (), ("opq", f"`{astq.src(st, 50)}`: the row range does not start where the block before it ended ({lo} vs {end})"))
+            if cols is None:
+                cols, lay = v.cols, v.lay
+            elif not self.same(cols, v.cols):
+                self.err(st, f"`{astq.src(st, 60)}` stores a block with other columns")
+            if loops:
+                kind, var, l0, l1 = loops[-1][:4]
+                rows.append(("forg", var, l0, l1, v.rows))
+                forms.append(("for", var, l0, l1, v.form))
+                end = "?"
+            else:
+                rows += list(v.rows)
+                forms.append(v.form)
+                end = hi if hi is not None else "?"
+        return Mat(rows, cols, ("vstack", tuple(forms)), lay)
 
     # -- iteration over the setups
     def seq_domain(self, val):
@@ -371,6 +451,8 @@ class Interp(seqdom.Interp):
         return Mat(rows, cols, form, lay)
 
     def attr_hook(self, base, name, node):
+        if isinstance(base, Rec) and name == "ndim":
+            return I(P.c(2))                # the records of a setup are (channels x samples) arrays
         if isinstance(base, Rec) and name == "shape":
             n = glen(base.groups)
             return Tup([I(n) if n is not None else E(node), E(ast.Name(id="n_samples", ctx=ast.Load()))]) if base.chan_axis == 0 else None
@@ -462,6 +544,13 @@ class Interp(seqdom.Interp):
         return None
 
     def call_hook(self, fn, args, kw, node, env):
+        if isinstance(node.func, ast.Attribute) and node.func.attr in ("swapaxes", "transpose") and not fn.startswith("numpy."):
+            base_ = self.ev(node.func.value, env)
+            if isinstance(base_, Mat):
+                # X.swapaxes(a, b) / X.transpose(..): the function form with X as first argument
+                a2 = [base_] + (list(args) if not (node.func.attr == "transpose" and len(args) > 1) else [Tup(list(args))])
+                return self.call_hook("numpy." + node.func.attr, a2, kw, ast.Call(func=ast.Attribute(value=ast.Name(id="np", ctx=ast.Load()), attr=node.func.attr, ctx=ast.Load()),
+                                                                                   args=[node.func.value] + list(node.args), keywords=node.keywords), env)
         r = self.prog.resolve_call(self.fi, node) if hasattr(self.prog, "resolve_call") else None
         q = getattr(r, "qual", "") or ""
         if q.endswith(self.estimator):
@@ -477,6 +566,8 @@ class Interp(seqdom.Interp):
                     self.err(node, f"`{astq.src(node, 60)}` correlates records of different setups")
                 return Tup([Freq(q), Mat(a.groups, b.groups, ("S", s, tuple(x[1] for x in a.groups), tuple(x[1] for x in b.groups)))])
             return Tup([Freq(q), Mat((), (), ("opq", "estimator called on unrecognised records"))])
+        if fn in ("numpy.empty", "numpy.zeros") and args and isinstance(args[0], Tup) and len(args[0].items) == 3:
+            return Asm(node)                # (rows, columns, lines): filled by the stores that follow
         if fn in ("numpy.asarray", "numpy.array", "numpy.atleast_2d", "numpy.asanyarray", "numpy.ascontiguousarray", "numpy.asfarray", "numpy.copy") and args \
                 and isinstance(args[0], Rec):
             return args[0]                  # the same records as an array (type / layout conversions keep the channels)
